@@ -256,11 +256,45 @@ func c16(c *an.Check) {
 	_ = fmt.Sprint
 }
 
+// shareScalarFreshness: every scalar object stored into a collected secretsharing.Share is allocated in the innermost loop
+// iteration that stores it (the circl scalars are pointers filled in place: one object shared by several shares makes them
+// all carry the last value).
+func shareScalarFreshness(c *an.Check, unlock *ssa.Function) {
+	nNew, fresh := 0, true
+	for _, b := range unlock.Blocks {
+		for _, ins := range b.Instrs {
+			st, ok := ins.(*ssa.Store)
+			if !ok {
+				continue
+			}
+			fa, ok := st.Addr.(*ssa.FieldAddr)
+			if !ok || !strings.HasSuffix(fa.X.Type().String(), "secretsharing.Share") {
+				continue
+			}
+			inner := an.InnermostLoop(unlock, st.Block())
+			call, isCall := st.Val.(*ssa.Call)
+			if isCall && call.Call.IsInvoke() && call.Call.Method.Name() == "NewScalar" {
+				nNew++
+				if inner == nil || !inner[call.Block()] {
+					fresh = false
+				}
+			} else {
+				fresh = false
+			}
+		}
+	}
+	c.Require(fresh && nNew == 2, "LOOPALLOC", "envelope.UnlockEnvelope gives every collected share its own scalars", unlock, "", nNew, "ID and Value scalars are allocated in the per-share loop iteration that appends them", "a scalar object stored in collected shares is allocated outside the per-share loop (all shares of a grant would alias one value)")
+}
+
 func c17(c *an.Check) {
 	p := c.P
-	build, _ := envelopeFuncs(c)
+	build, unlockFn := envelopeFuncs(c)
 	if build == nil {
 		return
+	}
+	if unlockFn != nil {
+		// an accepted configuration opens only if the shares collected from one grant keep their own values
+		shareScalarFreshness(c, unlockFn)
 	}
 	share := an.Calls(build, cSSShare)
 	ssnew := an.Calls(build, cSSNew)
